@@ -1528,7 +1528,8 @@ def encode_value(parsed_tag: dict) -> bytes:
                     value,
                 ]
 
-            return _type.encode(value, value_elements)
+            # the length of an array of DWORDs counts DWORDs, not the BOOLs in them
+            return _type.encode(value, elements if data_type == "DWORD" else value_elements)
 
         return _type.encode(value)
 
